@@ -6,6 +6,7 @@
 //         pool     history on a memory pool with growing raw memory      fixed   fixed pool (buffer handed out once)
 //         twopools two pools, blocks of both alive                       extreme (no faults) overflow / extreme arguments
 //         cxx      C++ allocators must throw std::bad_alloc
+//         poolorphan  pool whose slabs were orphaned by a finished thread and emptied by another thread, then raw memory is refused (-p keep=N live blocks of the finished thread)
 #include <oneapi/tbb/scalable_allocator.h>
 #include "vfh.h"
 #include "vfmalloc.h"
@@ -15,6 +16,7 @@
 #include <cerrno>
 #include <new>
 using namespace vfh;
+namespace rml { namespace internal { class TLSData; } } void doThreadShutdownNotification(rml::internal::TLSData*, bool);   // what the pthread key destructor runs at thread exit
 static bool armed = false; static int raw_calls = 0, raw_failed = 0;
 static int nulls = 0; static bool allow_null = false; static char fixed_buf[1 << 23];
 extern "C" void* mmap(void* addr, size_t len, int prot, int flags, int fd, off_t off) {
@@ -69,6 +71,17 @@ static void scenario() {
         void* z = rml::pool_malloc(pool, 100); if (!z && !fixed) vf_fail("pool allocation still fails after raw memory became available again"); if (z) h.add(z, 100, 16, "pool_malloc"); h.check_all("recovery");
         if (!rml::pool_reset(pool)) vf_fail("pool_reset failed"); h.live.clear();
         void* y = rml::pool_malloc(pool, 5000); if (y) { if (!inside(1, y, 5000)) vf_fail("block after reset outside raw memory"); }
+        if (!rml::pool_destroy(pool)) vf_fail("pool_destroy failed"); for (auto& r : env[1].regions) if (r.live) vf_fail("pool_destroy kept raw region %p", (void*)r.p);
+        vf_outcome("raw=%d failed=%d nulls=%d", raw_calls, raw_failed, nulls); }
+    else if (streq(k, "poolorphan")) {   // a thread allocated small objects in the pool and ended; its slabs are orphaned, another thread frees them; then raw memory is refused
+        rml::MemPoolPolicy pol(raw_alloc, raw_free); rml::MemoryPool* pool = nullptr; if (rml::pool_create_v1(1, &pol, &pool) != rml::POOL_OK) vf_fail("pool_create failed");
+        int keep = (int)vf_param_int("keep", 0); static void* pa[64]; int na = 40;
+        int t = spawn([&] { for (int i = 0; i < na; i++) { pa[i] = rml::pool_malloc(pool, 256); if (!pa[i]) vf_fail("pool_malloc failed in the setup"); memset(pa[i], 0x5a, 256); } /* a size class the history below does not use, so the orphaned slab is not adopted */ doThreadShutdownNotification(nullptr, false); });
+        vf_join(t);
+        for (int i = keep; i < na; i++) rml::pool_free(pool, pa[i]);          // freed by a different thread than the (finished) owner
+        vf_window(1); armed = true; history_pool(h, pool, 1); armed = false; vf_window(0);
+        for (int i = 0; i < keep; i++) for (int j = 0; j < 256; j++) if (((unsigned char*)pa[i])[j] != 0x5a) vf_fail("a live block of the finished thread was damaged");
+        void* z = rml::pool_malloc(pool, 100); if (!z) vf_fail("pool allocation still fails after raw memory became available again"); h.add(z, 100, 16, "pool_malloc"); h.check_all("recovery");
         if (!rml::pool_destroy(pool)) vf_fail("pool_destroy failed"); for (auto& r : env[1].regions) if (r.live) vf_fail("pool_destroy kept raw region %p", (void*)r.p);
         vf_outcome("raw=%d failed=%d nulls=%d", raw_calls, raw_failed, nulls); }
     else if (streq(k, "twopools")) { rml::MemPoolPolicy pol(raw_alloc, raw_free); rml::MemoryPool *a = nullptr, *b = nullptr;
